@@ -154,6 +154,8 @@ structure ClassDef where
   /-- `getattr(cls, '_ignore_none', <absent>)`: `none` = no class of the MRO sets it -/
   ignoreNoneAttr : Option Bool := none
   immutable : Bool := false
+  /-- which of `_serialization_mapper` / `_deserialization_mapper` the class's own `__dict__` holds -/
+  ownMappers : List String := []
 deriving Repr, Inhabited
 
 namespace ClassDef
@@ -417,6 +419,16 @@ def sigOf (w : World) (src : ClassSrc) : Sig :=
                       ++ names.filter (fun n => !req.contains n && !consts.contains n))
     kwargs := (src.addl.orElse fun _ => inheritedOpt w (·.ownAddl) (mroTail w src)).getD true }
 
+def mapperNames : List String := ["_serialization_mapper", "_deserialization_mapper"]
+
+def isAttrEntry : SrcEntry → Bool
+  | .attr _ => true
+  | _ => false
+
+/-- the mapper attributes written in the class body -/
+def ownMappersOf (entries : List (String × SrcEntry)) : List String :=
+  (entries.filter fun p => mapperNames.contains p.1 && isAttrEntry p.2).map (·.1)
+
 def build (w : World) (src : ClassSrc) : ClassDef :=
   let tail := mroTail w src
   let all := allFieldsOf w src
@@ -431,6 +443,7 @@ def build (w : World) (src : ClassSrc) : ClassDef :=
     ownAddl := src.addl
     ownIgnoreNone := src.ignoreNone
     ownImmutable := src.immutable
+    ownMappers := ownMappersOf src.entries
     addl := (src.addl.orElse fun _ => inheritedOpt w (·.ownAddl) tail).getD true
     ignoreNoneAttr := src.ignoreNone.orElse fun _ => inheritedOpt w (·.ownIgnoreNone) tail
     immutable := (src.immutable.orElse fun _ => inheritedOpt w (·.ownImmutable) tail).getD false }
